@@ -252,6 +252,105 @@ func stressTCP(burst int, callers int, d time.Duration) StressRec {
 	return r
 }
 
+// reuse: a token is used again for the NEXT request once the first has completed (legal), and the peer retransmits its
+// confirmable separate response to the first request (same message ID: its acknowledgement was lost) while the second is
+// outstanding. The retransmission is a duplicate by message ID: it is acknowledged again and NOT delivered - the second call
+// returns the content produced for the second request.
+func reuse(burst int) StressRec {
+	r := StressRec{Op: "stress", Burst: burst, Transport: "udp-token-reuse"}
+	u := conns.NewUDP(func(cfg *udpclient.Config) { cfg.TransmissionNStart = 4 })
+	defer u.Close()
+	tok := []byte{0x7E, 0x05, byte(burst)}
+	seen := 0
+	waitReq := func(path string) (memnet.Dgram, bool) {
+		var got memnet.Dgram
+		ok := hooksWait(func() bool {
+			for _, raw := range u.Sess.Out(seen) {
+				seen++
+				if d, err := memnet.Parse(raw); err == nil && d.Code == int(codes.GET) {
+					if p, _ := d.Opts.Path(); p == path {
+						got = d
+						return true
+					}
+				}
+			}
+			return false
+		})
+		return got, ok
+	}
+	call := func(path string) (string, error) {
+		ctx, cancel := context.WithTimeout(context.Background(), 2*time.Second)
+		defer cancel()
+		req, err := u.CC.NewGetRequest(ctx, path)
+		if err != nil {
+			return "", err
+		}
+		defer u.CC.ReleaseMessage(req)
+		req.SetToken(tok)
+		resp, err := u.CC.Do(req)
+		if err != nil {
+			return "", err
+		}
+		defer u.CC.ReleaseMessage(resp)
+		b, _ := resp.ReadBody()
+		return string(b), nil
+	}
+	type res struct {
+		body string
+		err  error
+	}
+	ch := make(chan res, 1)
+	go func() { b, err := call("/one"); ch <- res{b, err} }()
+	q1, ok := waitReq("/one")
+	if !ok {
+		r.Failed++
+		return r
+	}
+	_ = u.Inject(memnet.Build(message.Acknowledgement, int(codes.Empty), q1.MID, nil, nil, nil))
+	sep := memnet.Build(message.Confirmable, int(codes.Content), 41000, tok, nil, []byte("content-of-/one"))
+	_ = u.Inject(sep)
+	r1 := <-ch
+	r.Calls++
+	if r1.err != nil {
+		r.Failed++
+		return r
+	}
+	if r1.body != "content-of-/one" {
+		r.Wrong++
+		r.First = fmt.Sprintf("/one got %q", r1.body)
+	}
+	go func() { b, err := call("/two"); ch <- res{b, err} }()
+	q2, ok := waitReq("/two")
+	if !ok {
+		r.Failed++
+		return r
+	}
+	_ = u.Inject(sep) // the retransmission of the OLD response, same message ID
+	_ = u.Inject(memnet.Build(message.Acknowledgement, int(codes.Content), q2.MID, tok, nil, []byte("content-of-/two")))
+	r2 := <-ch
+	r.Calls++
+	if r2.err != nil {
+		r.Failed++
+	} else if r2.body != "content-of-/two" {
+		r.Wrong++
+		if r.First == "" {
+			r.First = fmt.Sprintf("/two (token used again after /one completed) got %q", r2.body)
+		}
+	}
+	return r
+}
+
+func hooksWait(f func() bool) bool {
+	deadline := time.Now().Add(2 * time.Second)
+	for time.Now().Before(deadline) {
+		if f() {
+			return true
+		}
+		time.Sleep(100 * time.Microsecond)
+	}
+	return false
+}
+
 // Stress runs n bursts on udp and n/2 on tcp.
 func Stress(out string, n int) {
 	w := rec.Create(out)
@@ -261,6 +360,9 @@ func Stress(out string, n int) {
 	}
 	for b := 0; b < (n+1)/2; b++ {
 		w.Put(stressTCP(n+b+1, 6, 150*time.Millisecond))
+	}
+	for b := 0; b < 4; b++ {
+		w.Put(reuse(3*n + 10 + b))
 	}
 	// the library's own servers and clients of all four transports over loopback sockets
 	for i, tr := range []string{"udp", "dtls", "tcp", "tls"} {
